@@ -285,6 +285,30 @@ func runC10(p *eng.Prog, r *eng.Report, tier string) {
 			}
 		}
 		c.r.Check("C10.4", ci, "InputStreamClosed bit", "K: closeInputStream sets the InputStreamClosed bit", ci.Pos(), n == 1, "bit not set exactly once")
+		// ... and on every path: no return is reachable without the write
+		cg := ci.Graph()
+		setsBit := func(q eng.Point, nd ast.Node) bool {
+			for _, w := range ci.FieldWrites("xmpp.Session.state") {
+				if w.Stmt == nd {
+					if v, ok := ci.ConstInt(w.RHS); ok && v&32 != 0 {
+						return true
+					}
+				}
+			}
+			return false
+		}
+		all := true
+		// an exit behind a test that found the bit already set is fine
+		already := eng.Cut{}
+		for _, ce := range cg.EdgesMatching("all(recv.state,xmpp.InputStreamClosed)") {
+			already[ce.E] = true
+		}
+		for _, q := range cg.Exits() {
+			if cg.Reachable(cg.Entry(), q, already, setsBit) {
+				all = false
+			}
+		}
+		c.r.Check("C10.4", ci, "InputStreamClosed bit on every path", "S: every path through closeInputStream marks the input closed (also when the input context has already expired)", ci.Pos(), all, "an exit is reachable without setting the bit")
 		ncan := 0
 		for _, cl := range ci.AllCalls() {
 			if sel, ok := ast.Unparen(cl.Fun).(*ast.SelectorExpr); ok {
@@ -461,6 +485,17 @@ func closerTypestate(c *cx, id string) {
 				}
 				return false
 			}
+			isUnlock := func(q eng.Point, nd ast.Node) bool {
+				found := false
+				ast.Inspect(nd, func(x ast.Node) bool {
+					if cc, ok := x.(*ast.CallExpr); ok && f.CalleeID(cc) == "sync.Locker.Unlock" {
+						found = true
+					}
+					return !found
+				})
+				return found
+			}
+			c.r.Check(id, f, "closer releases the session lock", "O: every return of the first Close (past the err guard) has released, or deferred the release of, the session lock it was created with (also when the final flush fails)", rs.Pos(), g.MustPassBefore(g.Entry(), pt, isUnlock, nil), "a return past the guard is reachable without Unlock: the session lock leaks and the next writer blocks forever")
 			c.r.Check(id, f, "closer marked closed", "O: every return that passed the guard stores a non-nil marker in the closer's err field (a second Close does not unlock again)", rs.Pos(), g.MustPassBefore(g.Entry(), pt, setErr, nil), "a return leaves the closer open after unlocking")
 		}
 	}
